@@ -2,6 +2,7 @@ import Model.Wire
 import Model.Keys
 import Model.Curve
 import Model.NumberTheory
+import Model.Ecdh
 /-!
 line-protocol handlers for `Model.Keys`.
 
@@ -105,8 +106,45 @@ def mkVK (c x y : String) : Option VK := do
 def mkSK (c d x y : String) : Option SK := do
   let k ← mkVK c x y; let d ← parseNat d; some ⟨k.curve, d, k⟩
 
+/-- `Model/Ecdh.lean`'s environment with the Keys model as key constructors (points are coordinate pairs; the point
+operations are not used by the loaders) -/
+def ecdhEnv (E : Ext) : Ecdh.Env Curve (Nat × Nat) Unit where
+  fieldP c := c.p
+  mul _ _ := .error .other
+  isInf _ := false
+  xOf P := .ok P.1
+  generate _ _ := .error .other
+  skFromString c b := (SK.fromString E c b).map fun k => ⟨k.curve, k.d, ⟨k.vk.curve, (k.vk.x, k.vk.y)⟩⟩
+  skFromDer b := (SK.fromDer E b).map fun k => ⟨k.curve, k.d, ⟨k.vk.curve, (k.vk.x, k.vk.y)⟩⟩
+  skFromPem b := (SK.fromPem E b).map fun k => ⟨k.curve, k.d, ⟨k.vk.curve, (k.vk.x, k.vk.y)⟩⟩
+  vkFromString c b := (VK.fromString E c b true).map fun k => ⟨k.curve, (k.x, k.y)⟩
+  vkFromDer b := (VK.fromDer E b).map fun k => ⟨k.curve, (k.x, k.y)⟩
+  vkFromPem b := (VK.fromPem E b).map fun k => ⟨k.curve, (k.x, k.y)⟩
+
+def showEVK (k : Ecdh.VKey Curve (Nat × Nat)) : String := k.curve.name ++ " " ++ toString k.point.1 ++ " " ++ toString k.point.2
+
+/-- one loader call on a fresh `ECDH(curve)` object: the public key returned (private loaders) resp. stored (public
+loaders), and the object's curve afterwards -/
+def ecdhLoad (E : Ext) (op : String) (c : Option Curve) (b : Bytes) : Option String := do
+  let o : Ecdh.Op Curve (Nat × Nat) Unit ← (match op with
+    | "privbytes" => some (.loadPrivBytes b) | "privder" => some (.loadPrivDer b) | "privpem" => some (.loadPrivPem b)
+    | "pubbytes" => some (.loadPubBytes b) | "pubder" => some (.loadPubDer b) | "pubpem" => some (.loadPubPem b)
+    | _ => none)
+  let (s', r) := Ecdh.step (ecdhEnv E) ⟨c, none, none⟩ o
+  let cn := match s'.curve with | some c => c.name | none => "-"
+  match r with
+  | .error e => some ("err " ++ e.name)
+  | .ok (.vk k) => some ("ok " ++ showEVK k ++ " " ++ cn)
+  | .ok _ => match s'.pub with
+    | some k => some ("ok " ++ showEVK k ++ " " ++ cn)
+    | none => some "ok ?"
+
 def handle (toks : List String) : Option String :=
   match toks with
+  | ["ecdh_load", op, c, s, sqrt, sub, pub] => do
+      let c ← (if c = "-" then some none else (parseCurve c).map some)
+      let s ← parseBytes s; let E ← mkExt sqrt sub pub
+      ecdhLoad E op c s
   | ["curve_info", c] => do
       let c ← parseCurve c
       some (res (fun e => toString c.baselen ++ " " ++ toString c.vkLen ++ " " ++ hexOfBytes e) c.encodedOid)
